@@ -459,3 +459,18 @@ package common
 //@   loop range:cl.List invariant forall(k, 0, rangeindex + 1, cl.List[k] != createTypeInfo)
 //@   assigns nothing
 //@ end
+
+// ---- C05: is the cursor on a key of a table constructor? ----
+// A request on `k` in `local t = { k = 1 }` is answered as `t.k`. The cursor counts as "on the key" only when it lies
+// within the key's own columns (both ends included): one column further right is, in `{x=x}`, already the VALUE x, and
+// one column further left is, in `{y=x,x=1}`, still the value before the comma.
+//@ func (*ScopeInfo).IsExistLocVarTableStrKey
+//@   props C05 C06 C11
+//@   loop range:locInfo.VarVec exits-early-only-if [cursor-is-within-the-columns-of-the-key] findLoc.StartLine == line && findLoc.EndLine == line && findLoc.StartColumn <= charactor && charactor <= findLoc.EndColumn
+//@ end
+//@ func GetSubMapStrKey
+//@   props C05 C06 C11
+//@   loop range:subMaps exits-early-only-if [cursor-is-within-the-columns-of-the-key-that-matched] findLoc.StartLine == line && findLoc.EndLine == line && (findLoc.StartColumn <= charactor || findLoc.StartColumn < 1) && charactor <= findLoc.EndColumn
+//@   loop range:tableVec exits-early-only-if [cursor-is-within-the-columns-of-the-nested-key] findLoc.StartLine == line && findLoc.EndLine == line && (findLoc.StartColumn <= charactor || findLoc.StartColumn < 1) && charactor <= findLoc.EndColumn
+//@   ensures[a-match-names-the-table-asked-about] !streq(firstStr, "") ==> streq(firstStr, strName)
+//@ end
